@@ -9,6 +9,7 @@ from mc.common import Result, seed
 from mc import forests as F
 from mc.hsmcheck import sweep, VARIANTS_ALL, mixed_style, replay_generic
 
+SAME_NAME = [("plain", "plain_same_name"), ("instrumented", "spied_same_name")]
 PID = "C01"
 
 
@@ -26,6 +27,108 @@ def gen(parent):
                            len(chain) > 1 or parent[Tt] >= 0)
 
 
+def _nested_work(parents):
+    """a transition of one chart during which an entry / exit action dispatches an event to ANOTHER chart (its own processor
+    object) that makes a transition of its own - the orthogonal-component idiom.  Differential oracle: both charts must log
+    and rest exactly as they do when run alone (the solo runs are what the main sweep compares with the reference model)."""
+    from mc import charts, refmodel
+    from mc.charts import Table, use, new_host, ENTRY, EXIT, FAMILIES, ev
+    from mc.common import BudgetExceeded
+    n_runs = 0
+    viol = []
+    p2 = (-1, 0, 1, 2)
+    react2 = {(0, "A"): ("T", 3)}
+
+    for parent in parents:
+        for base, nontrivial in gen(parent):
+            if not nontrivial:
+                continue
+            S_, Tt = [(k[0], v[1]) for k, v in base["react"].items()][0]
+            log_ref, _rest = refmodel.transition(parent, base["init"], base["start"], S_, Tt)
+            touched = sorted({(x[0], x[1]) for x in log_ref if x[0] in ("entry", "exit")})
+            react1 = {(s_, charts.SIG[g]): v for (s_, g), v in base["react"].items()}
+            for host, fam in VARIANTS_ALL:
+                kw = {"instrumented": False} if (host == "queued" and fam == "plain") or host == "queued_off" else {}
+                # chart 1 alone
+                ts = Table(parent, init=base["init"], react=react1)
+                use(ts, fam)
+                hs = new_host(host, **kw)
+                try:
+                    hs.start_at(ts.S[base["start"]])
+                    for g in base["events"]:
+                        hs.dispatch(ev(g))
+                    alone = ([x for x in ts.log if x[0] != "empty"], charts.config_of(hs))
+                except (Exception, BudgetExceeded):  # noqa
+                    continue        # (the main sweep reports it)
+                for kind, k in touched:
+                    n_runs += 1
+                    calls = []
+                    t2 = Table(p2, react={(s_, charts.SIG[g]): v for (s_, g), v in react2.items()})
+                    t2.S = FAMILIES[fam]
+                    h2 = new_host(host, **kw)
+                    h2.mc_table = t2
+                    bad = None
+                    try:
+                        h2.start_at(t2.S[0])
+
+                        def poke(chart, h2=h2, calls=calls):
+                            calls.append(1)
+                            h2.dispatch(ev("A"))
+                        t1 = Table(parent, init=base["init"], react=react1, act={(k, ENTRY if kind == "entry" else EXIT): [("call", poke)]})
+                        use(t1, fam)
+                        h1 = new_host(host, **kw)
+                        t2.log[:] = []
+                        h1.start_at(t1.S[base["start"]])
+                        for g in base["events"]:
+                            h1.dispatch(ev(g))
+                        got1 = ([x for x in t1.log if x[0] != "empty"], charts.config_of(h1))
+                        got2 = [x for x in t2.log if x[0] != "empty"]
+                        # chart 2 alone, poked the same number of times
+                        t3 = Table(p2, react={(s_, charts.SIG[g]): v for (s_, g), v in react2.items()})
+                        t3.S = FAMILIES[fam]
+                        h3 = new_host(host, **kw)
+                        h3.mc_table = t3
+                        h3.start_at(t3.S[0])
+                        t3.log[:] = []
+                        for _ in calls:
+                            h3.dispatch(ev("A"))
+                        want2 = [x for x in t3.log if x[0] != "empty"]
+                        if got1 != alone:
+                            bad = ("outer", "the chart whose %s action of state %d dispatches to another chart logged %r and rests in %r; alone it "
+                                   "logs %r and rests in %r" % (kind, k, got1[0], got1[1], alone[0], alone[1]))
+                        elif got2 != want2:
+                            bad = ("inner", "the chart dispatched to from the %s action logged %r; alone (%d dispatches) %r" % (kind, got2, len(calls), want2))
+                    except (Exception, BudgetExceeded) as e:  # noqa
+                        bad = ("exception", "%s: %s" % (type(e).__name__, e))
+                    if bad:
+                        key = "C01/nested-dispatch/%s" % bad[0]
+                        if sum(1 for v in viol if v[0] == key) < 2:
+                            viol.append((key, "%r/init %r, start %d, react %r on host %s/%s: %s" % (
+                                parent, base["init"], base["start"], base["react"], host, fam, bad[1]),
+                                {"nested": True, "parent": list(parent)}))
+    return n_runs, viol
+
+
+def nested_part(res, tier):
+    from mc.common import pmap, ncpu, Violation
+    N = 4 if tier == "quick" else 5
+    fl = [f for n in range(2, N + 1) for f in F.forests(n)]
+    chunks = [fl[i::ncpu() * 2] for i in range(ncpu() * 2)]
+    n = 0
+    for runs, viol in pmap(_nested_work, [c for c in chunks if c], ncpu()):
+        n += runs
+        for key, what, w in viol:
+            if sum(1 for x in res.violations if x.key == key) < 2:
+                res.add(Violation(key, what, w))
+    res.coverage["nested_dispatch_part"] = {"runs": n, "forests_upto": N,
+                                            "rule": "every non-trivial C01 scenario on forests<=%d x every state exited or entered by the transition x 5 "
+                                                    "hosts: that state's exit / entry action dispatches an event to a second chart (another processor "
+                                                    "object) which makes a transition with a three-state entry path; both charts must log and rest "
+                                                    "as they do alone" % N}
+    res.coverage["evaluations"] = res.coverage.get("evaluations", 0) + n
+    res.coverage["traces_validated_against_impl"] = res.coverage["evaluations"]
+
+
 def run(tier):
     res = Result(PID)
     N, nh, maxd = (8, 6, 11) if tier == "quick" else (9, 7, 14)
@@ -39,7 +142,10 @@ def run(tier):
     sweep(res, [(gen, allf, VARIANTS_ALL[:1], [None]),
                 (gen, small, VARIANTS_ALL[1:], [None]),
                 (gen, small, VARIANTS_ALL[:2], [mixed_style]),
-                (gen, spine_f, VARIANTS_ALL[:1], [None])])
+                (gen, spine_f, VARIANTS_ALL[:1], [None]),
+                # every state function carries the same __name__ (distinct functions): states are known by identity
+                (gen, [f for f in allf if len(f) <= (5 if tier == "quick" else 6)], SAME_NAME, [None])])
+    nested_part(res, tier)
     res.coverage.update({
         "rule": "every (forest shape<=%d states, current c, answering S on path(c), target T, init chain below T), "
                 "two consecutive steps each, x hosts; non-trivial = target nested or init chain non-empty; "
@@ -52,4 +158,12 @@ def run(tier):
 
 
 def replay(witness):
+    if witness.get("nested"):
+        from mc.common import Violation
+        res = Result(PID)
+        runs, viol = _nested_work([tuple(witness["parent"])])
+        for key, what, w in viol:
+            print(key, what)
+            res.add(Violation(key, what, w))
+        return res
     return replay_generic(PID, witness)
